@@ -65,7 +65,7 @@ theorem posc_lookup_registered {s : Sym} {c : CRow} (h : lookL s poscC = some c)
   obtain ⟨hm, hs⟩ := lookL_some h
   obtain ⟨r, hr, e⟩ := mem_of_core_eq posc_compact_is_table hm
   simp only [UnitRow.core, CRow.core, Prod.mk.injEq] at e
-  exact ⟨r, hr, e.1.trans hs, e.2.1, e.2.2.1, e.2.2.2.1, e.2.2.2.2⟩
+  exact ⟨r, hr, e.1.trans hs, e.2.1, e.2.2.1, e.2.2.2.1, e.2.2.2.2.1⟩
 
 theorem posc_lookup_unregistered {s : Sym} (h : lookL s poscC = none) : ∀ r ∈ poscDb.units, r.sym ≠ s := by
   intro r hr e
@@ -80,7 +80,7 @@ tree under its own symbol, and the rows carry their positions) -/
 theorem posc_symbols_unique : (poscDb.units.map (·.sym)).Nodup := by
   have h := syms_nodup_of_index poscTree_complete poscC_pos
   have e : poscC.map (·.sym) = poscDb.units.map (·.sym) := by
-    have := congrArg (List.map (fun t : Sym × Sym × Sym × Rat × Bool => t.1)) posc_compact_is_table
+    have := congrArg (List.map (fun t : Sym × Sym × Sym × Rat × Bool × Bool => t.1)) posc_compact_is_table
     simpa [List.map_map, CRow.core, UnitRow.core, Function.comp_def] using this
   rw [← e]; exact h
 
